@@ -1,6 +1,7 @@
 package diodeh
 
 import (
+	"encoding/json"
 	"fmt"
 	"os"
 	"time"
@@ -16,6 +17,8 @@ type sess struct {
 	scheds     int
 	steps      int
 	ids        int
+	coqScheds  int
+	coqNodes   int
 	exhaustive bool
 }
 
@@ -139,6 +142,8 @@ func (s *sess) explore(j *Job, o exploreOpt) (n int) {
 		}
 	}
 	if shipped > 0 {
+		s.coqScheds += shipped
+		s.coqNodes += root.size()
 		s.ship(j, root, map[string]interface{}{"label": o.label, "schedules": shipped})
 	}
 	return nn
@@ -223,10 +228,44 @@ func (s *sess) writerRandom(nCfg, per int, maxP, maxW, maxSize int, lapping bool
 	}
 }
 
+// replay re-runs the schedule of a replay file (written by bin/check from a Violation) on the
+// instrumented code, with the monitors of the property and the model comparison.
+func (s *sess) replay() bool {
+	if s.c.Replay == "" {
+		return false
+	}
+	raw, err := os.ReadFile(s.c.Replay)
+	if err != nil {
+		fmt.Fprintln(os.Stderr, "diodeh: cannot read replay file: "+err.Error())
+		os.Exit(2)
+	}
+	var rp struct {
+		Case struct {
+			Job      Job   `json:"job"`
+			Schedule []int `json:"schedule"`
+		} `json:"case"`
+	}
+	if err := json.Unmarshal(raw, &rp); err != nil || rp.Case.Job.Level == "" {
+		fmt.Fprintln(os.Stderr, "diodeh: replay file has no schedule case")
+		os.Exit(2)
+	}
+	j := rp.Case.Job
+	j.ID = s.nextID()
+	j.Mode = "list"
+	j.Scheds = [][]int{rp.Case.Schedule}
+	// the recorded schedule includes the post phase; replay it as given
+	j.Post = ""
+	s.explore(&j, exploreOpt{coqEvery: 1, label: "replay"})
+	s.finish("replay of " + s.c.Replay)
+	return true
+}
+
 func (s *sess) finish(rule string) {
 	s.c.Res.Rule = rule
 	s.c.Res.Exhaustive = s.exhaustive
 	s.c.Res.ExtraCoverage["schedules_executed"] = s.scheds
+	s.c.Res.ExtraCoverage["schedules_checked_against_model"] = s.coqScheds
+	s.c.Res.ExtraCoverage["model_tree_nodes"] = s.coqNodes
 	s.c.Res.ExtraCoverage["atomic_steps_executed"] = s.steps
 	s.c.Res.ExtraCoverage["instrumenter_rewrites"] = s.b.Counts
 	s.c.Res.ExtraCoverage["instrumented_sources"] = "diode/*.go, diode/internal/diodes/*.go of $VERIF_REPO (current working tree), rewritten at check time into a temporary module"
@@ -238,6 +277,9 @@ const ruleCommon = "a case is one configuration (level ring|writer, ring size, m
 func RunC10(c *hlib.Ctx) {
 	s := openSess(c, "C10")
 	defer s.b.Cleanup()
+	if s.replay() {
+		return
+	}
 	// exhaustive small configurations (P, W, size) at ring level
 	s.ringDFS([][3]int{{1, 2, 1}, {2, 1, 2}, {2, 1, 1}}, 2, "exhaustive")
 	// producers alone: every Write returns although the consumer never takes a step
@@ -280,6 +322,9 @@ func RunC10(c *hlib.Ctx) {
 func RunC11(c *hlib.Ctx) {
 	s := openSess(c, "C11")
 	defer s.b.Cleanup()
+	if s.replay() {
+		return
+	}
 	s.corpus()
 	// known-finding witnesses, on the real instrumented code
 	s.explore(&Job{ID: s.nextID(), Level: "diode", Size: 2, Msgs: k2Msgs, Budget: 10, Mode: "list", Scheds: [][]int{k2Sched}, Post: "drain"}, exploreOpt{coqEvery: 1, label: "K2-witness"})
@@ -301,6 +346,9 @@ func RunC11(c *hlib.Ctx) {
 func RunC12(c *hlib.Ctx) {
 	s := openSess(c, "C12")
 	defer s.b.Cleanup()
+	if s.replay() {
+		return
+	}
 	s.corpus()
 	msgs := k4Msgs
 	s.explore(&Job{ID: s.nextID(), Level: "writer", Size: 2, Msgs: msgs, Bytes: mkBytes(msgs), Waiter: true, Gated: true, Budget: 10, Mode: "list", Scheds: [][]int{k4Sched}, Post: "finish"}, exploreOpt{coqEvery: 1, label: "K4-witness"})
